@@ -190,6 +190,14 @@ func classify(r any) (cls, msg string) {
 			cls = string(tr.Condition.Hierarchy()[0])
 		}
 		return cls, tr.Message
+	case slip.Instance:
+		cls = string(tr.Hierarchy()[0])
+		if mv, has := tr.SlotValue(slip.Symbol("message")); has {
+			if ms, ok := mv.(slip.String); ok {
+				msg = string(ms)
+			}
+		}
+		return cls, msg
 	case error:
 		return "go-panic", tr.Error()
 	default:
